@@ -1,5 +1,5 @@
 (* Properties_C08.v — hostname registration is probe-backed and consistent with its notifications. *)
-From QV Require Import Base Fields SrcFacts Msg SrcDecisions Sim Hostname HostnameProofs.
+From QV Require Import Base Fields SrcFacts Msg SrcDecisions Sim Hostname HostnameProofs HostnameInv.
 Local Open Scope Z_scope.
 
 (* clause "while it is not registered it answers no queries": no handler invocation of an unregistered hostname
@@ -8,3 +8,61 @@ Theorem C08_unregistered_never_replies_partial now h ev m :
   h_reg h = false -> ~ In (ESend m) (snd (host_handle now h ev)).
 Proof. exact (host_unregistered_never_replies now h ev m). Qed.
 Print Assumptions C08_unregistered_never_replies_partial.
+
+(* every state the executable model reaches, for every host name, interface list and script, lies in [hreach]:
+   the clock never runs backwards and a timer fires only at or after its deadline *)
+Theorem C08_model_runs_are_reachable fuel rawlocal ifs ops :
+  exists g, hreach (host_state_after fuel rawlocal ifs ops) g.
+Proof. exact (host_run_reachable fuel rawlocal ifs ops). Qed.
+Print Assumptions C08_model_runs_are_reachable.
+
+(* clause "the name it reports while registered is the one carried by its last hostnameChanged": in every reachable
+   state, where g_emitted is the ghost record of the most recent change notification *)
+Theorem C08_registered_name_is_last_notified s g :
+  hreach s g -> h_reg (s_st s) = true -> g_emitted g = Some (h_name (s_st s)).
+Proof. exact (registered_name_is_last_notified s g). Qed.
+Print Assumptions C08_registered_name_is_last_notified.
+
+(* clause "it registers a name only after probing that very name and waiting the full interval": whenever the
+   registration timer is due in a reachable state, the latest probe (ghost g_probe: name and instant of the most
+   recent probe broadcast) was for the current name and at least registration_wait_ms old, and firing the timer
+   registers exactly that name *)
+Theorem C08_registration_is_probe_backed s g d sq :
+  hreach s g -> In (T_REG, d, sq) (s_tm s) -> d <= s_now s ->
+  h_reg (s_st s) = false /\ fst (g_probe g) = h_name (s_st s) /\
+  snd (g_probe g) + registration_wait_ms <= s_now s /\
+  let s1 := mkSim (s_now s) (tm_remove T_REG (s_tm s)) (s_seq s) (s_st s) in
+  let s' := fst (dispatch hostst unit host_handle s1 (EvTimer T_REG)) in
+  h_reg (s_st s') = true /\ h_name (s_st s') = h_name (s_st s).
+Proof. exact (registration_is_probe_backed s g d sq). Qed.
+Print Assumptions C08_registration_is_probe_backed.
+
+(* and no other transition sets the flag *)
+Theorem C08_only_registration_timer_registers now h ev :
+  h_reg h = false -> h_reg (fst (host_handle now h ev)) = true -> ev = EvTimer T_REG.
+Proof. exact (only_registration_timer_registers now h ev). Qed.
+Print Assumptions C08_only_registration_timer_registers.
+
+(* clause "a conflicting response moves it to the next suffixed candidate and restarts the wait": in a reachable
+   unregistered state, a response carrying an address record of the current name leaves the object unregistered
+   under a candidate with a strictly larger suffix, probed at this instant, with the registration timer armed for
+   exactly registration_wait_ms from now *)
+Theorem C08_conflict_restarts_wait s g m :
+  hreach s g -> h_reg (s_st s) = false -> m_response m = true ->
+  existsb (fun r => hostname_conflict r (h_name (s_st s))) (m_records m) = true ->
+  let s' := fst (dispatch hostst unit host_handle s (EvMsg m)) in
+  let g' := ghost_effs (s_now s) g (snd (host_handle (s_now s) (s_st s) (EvMsg m))) in
+  h_reg (s_st s') = false /\ (h_suffix (s_st s) < h_suffix (s_st s'))%N /\
+  h_name (s_st s') = host_candidate (h_local (s_st s)) (h_suffix (s_st s')) /\
+  g_probe g' = (h_name (s_st s'), s_now s) /\
+  tm_has (s_tm s') T_REG /\
+  forall d sq, In (T_REG, d, sq) (s_tm s') -> d = s_now s + registration_wait_ms.
+Proof. exact (conflict_restarts_wait s g m). Qed.
+Print Assumptions C08_conflict_restarts_wait.
+
+(* the ghost "latest probe" is faithful: the object broadcasts nothing but probes (one A and one AAAA question for
+   one name, no records) *)
+Theorem C08_broadcasts_are_probes now h ev m :
+  In (ESendAll m) (snd (host_handle now h ev)) -> exists nm, is_host_probe nm m = true.
+Proof. exact (host_broadcasts_are_probes now h ev m). Qed.
+Print Assumptions C08_broadcasts_are_probes.
